@@ -1,4 +1,4 @@
-import GeomV.C03.LemmasCentroid
+import GeomV.C03.LemmasMCentroid
 import GeomV.C03.ProofsReal
 /-!
 # C03 — property theorems (exact part)
@@ -265,5 +265,95 @@ theorem op_centroid_unclosed_differs :
 theorem C03_mcentroid_unfixed_wrong :
     multiPolygonCentroidOld [[[⟨0,0⟩, ⟨0,2⟩, ⟨2,2⟩, ⟨2,0⟩, ⟨0,0⟩]]] = (.fin (-1), .fin (-1)) ∧
     multiPolygonCentroid [[[⟨0,0⟩, ⟨0,2⟩, ⟨2,2⟩, ⟨2,0⟩, ⟨0,0⟩]]] = (.fin 1, .fin 1) := by decide +kernel
+
+
+/-- **Centroid clause (MultiPolygon), per ring.**  In the fixed `MultiPolygon.Centroid` loop, a
+closed spelling `s.ap r` (any start vertex, either direction) of a ring with non-zero area contributes
+exactly `w · ringCentroid r` to the moment sums and `w` to the area sum, whatever its weight
+`w = area(r, i, p, b)` is: the contribution does not depend on the spelling, in particular not on the
+direction of this single ring. -/
+theorem C03_mcentroid_ring (s : Spell) (hs : s.closed = true) (r : Ring) (h : shoelace2 r ≠ 0)
+    (w : Rat) (acc : CAcc) :
+    acc.add (pairSum cxF (s.ap r)) (pairSum cyF (s.ap r)) (signedArea (s.ap r)) w =
+      ⟨acc.A + w, acc.xA + w * (ringCentroid r).x, acc.yA + w * (ringCentroid r).y, acc.nan⟩ := by
+  have h' : shoelace2 (s.ap r) ≠ 0 := by
+    rw [shoelace2_ap]; split <;> simpa using h
+  have hx : pairSum cxF (s.ap r) = momX (s.ap r) := by
+    rw [momX_eq', Spec.Spell.ap_eq, if_pos hs, pairSum_closeRing, cyc_close _ (fun a => by unfold cxF; ring)]
+  have hy : pairSum cyF (s.ap r) = momY (s.ap r) := by
+    rw [momY_eq', Spec.Spell.ap_eq, if_pos hs, pairSum_closeRing, cyc_close _ (fun a => by unfold cyF; ring)]
+  rw [hx, hy, signedArea_eq h', ← ringCentroid_ap s r]
+  unfold CAcc.add ringCentroid
+  rw [if_neg (by intro e; apply h'; linarith)]
+  congr 1 <;> field_simp <;> ring
+
+/-- The weighted mean of ring centroids (the specification's centroid) is unchanged when any single
+ring — or any set of rings — is respelled: reversed, rotated, closed. -/
+theorem C03_mcentroid_spec_invariant (wr : List (Rat × Ring)) (ss : List Spell) (hlen : ss.length = wr.length) :
+    wmean (List.zipWith (fun s x => (x.1, s.ap x.2)) ss wr) = wmean wr := by
+  unfold wmean
+  have key : ∀ (F : Rat → P → Rat), (List.zipWith (fun s (x : Rat × Ring) => (x.1, s.ap x.2)) ss wr).map (fun x => F x.1 (ringCentroid x.2))
+      = wr.map (fun x => F x.1 (ringCentroid x.2)) := by
+    intro F
+    induction wr generalizing ss with
+    | nil => cases ss <;> simp
+    | cons x t ih =>
+      cases ss with
+      | nil => simp at hlen
+      | cons s st =>
+        simp only [List.zipWith_cons_cons, List.map_cons, ringCentroid_ap]
+        rw [ih st (by simpa using hlen)]
+  have k1 := key (fun w _ => w)
+  have k2 := key (fun w c => w * c.x)
+  have k3 := key (fun w c => w * c.y)
+  beta_reduce at k1 k2 k3
+  rw [k1, k2, k3]
+
+
+/-- **Centroid clause (MultiPolygon): "…for multi-polygons also unchanged by reversing any single
+ring".**  For a multi-polygon `mp` of valid members, every choice `sss` of per-ring direction and
+start vertex with closed spelling (the statement's "closed rings"), the FIXED `MultiPolygon.Centroid`
+returns the area-weighted centroid of the base `mp` (shells `+measure`, holes `−measure`) — the same
+point for every spelling, in particular when any single ring is reversed.  `hW`: the total weight is
+not zero (otherwise the Go code divides by zero); `PipAgrees` as in `C03_area`. -/
+theorem C03_mcentroid (mp : MPoly) (sss : List (List Spell))
+    (hlen : List.Forall₂ (fun ss p => ss.length = p.length) sss mp)
+    (hclosed : ∀ ss ∈ sss, ∀ s ∈ ss, s.closed = true)
+    (hv : ∀ p ∈ mp, ValidPoly p = true)
+    (hag : ∀ p' ∈ List.zipWith respell sss mp, PipAgrees p' = true)
+    (hW : ((mp.flatMap weights).map (·.1)).sum ≠ 0) :
+    multiPolygonCentroid (List.zipWith respell sss mp) = (.fin (mcentroid mp).x, .fin (mcentroid mp).y) := by
+  have hmem : ∀ p' ∈ List.zipWith respell sss mp, ∀ s,
+      mpCentroidRings (p'.length == 1) (withOthers [] p') s = (weights p').foldl addW s := by
+    clear hW
+    induction hlen with
+    | nil => intro p' hp'; simp at hp'
+    | @cons ss p sst mpt hl _ ih =>
+      intro p' hp'
+      simp only [List.zipWith_cons_cons, List.mem_cons] at hp'
+      rcases hp' with e | hp'
+      · subst e
+        exact mpCentroidRings_valid p ss hl (hclosed ss (by simp)) (hv p (by simp)) (hag _ (by simp))
+      · exact ih (fun q hq => hclosed q (by simp [hq])) (fun q hq => hv q (by simp [hq]))
+          (fun q hq => hag q (by simp [hq])) p' hp'
+  have hrel := flatMap_weights_respell mp sss hlen
+  unfold multiPolygonCentroid
+  rw [mpCentroidAcc_fold _ hmem, foldl_addW]
+  have hW' : (((List.zipWith respell sss mp).flatMap weights).map (·.1)).sum ≠ 0 := by
+    rw [sumW_congr hrel]; exact hW
+  have hm : mcentroid mp = mcentroid (List.zipWith respell sss mp) := (wmean_congr hrel).symm
+  rw [hm]
+  simp only [CAcc.zero, CAcc.finish, zero_add, fdiv, if_neg hW']
+  unfold mcentroid wmean
+  simp only [sumR_eq_sum]
+  simp
+
+/-! non-vacuity: the 10×10 square with a hole and a second member, every ring closed, some reversed -/
+def exMP : MPoly := [exPoly, [[⟨20,0⟩, ⟨22,0⟩, ⟨22,2⟩, ⟨20,2⟩]]]
+def exMSpell : List (List Spell) := [[⟨1, true, true⟩, ⟨2, true, true⟩], [⟨3, false, true⟩]]
+example : List.Forall₂ (fun ss p => ss.length = p.length) exMSpell exMP := by
+  unfold exMSpell exMP; exact .cons rfl (.cons rfl .nil)
+example : (∀ p ∈ exMP, ValidPoly p = true) ∧ (∀ p' ∈ List.zipWith respell exMSpell exMP, PipAgrees p' = true) ∧
+    ((exMP.flatMap weights).map (·.1)).sum ≠ 0 := by decide +kernel
 
 end GeomV.C03
